@@ -1194,7 +1194,17 @@ lys_unres_glob_revert(struct ly_ctx *ctx, struct lys_glob_unres *unres)
 
     if (unres->implementing.count || unres->feat_mods.count) {
         /* recompile previous context because some implemented modules are no longer implemented
-         * or have their previous features again, we can reuse the current to_compile flags */
+         * or have their previous features again; dep sets that were already compiled successfully
+         * (ly_ctx_compile() with several dep sets) have their to_compile flags cleared, set them again */
+        for (i = 0; i < unres->dep_sets.count; ++i) {
+            dep_set = unres->dep_sets.objs[i];
+            for (j = 0; j < dep_set->count; ++j) {
+                m = dep_set->objs[j];
+                if (m->implemented) {
+                    m->to_compile = 1;
+                }
+            }
+        }
         prev_lo = ly_temp_log_options(&temp_lo);
         ret = lys_compile_depset_all(ctx, &ctx->unres);
         ly_temp_log_options(prev_lo);
